@@ -45,7 +45,7 @@ def main(tier, replay, t0):
             g = c.gen[x["id"]]
             if g.get("result") != "ok":
                 continue
-            base = {"wgsl": c.wgsl, "options": x["opt"]}
+            base = {"case_id": c.id, "wgsl": c.wgsl, "options": x["opt"]}
             inv = g.get("inv", {})
             names = [k["name"] for k in inv.get("consts", []) if k["pub"]]
             want = [k for k in c.spec.consts if not k["skipped"]]
